@@ -48,6 +48,9 @@ static void prop_amg(Tape &t, Ctx &c) {
     boost::property_tree::ptree prm;
     prm.put("coarsening.type", COARSENING[ci]); prm.put("relax.type", RELAX[ri]);
     prm.put("coarse_enough", ce); prm.put("direct_coarse", direct); prm.put("ncycle", ncycle);
+    // a W-cycle costs 2^levels and a hierarchy may shrink by one unknown per level (coarse_enough = 2 on n = 120): cap the depth
+    // for W-cycles (cost guard seen in the thorough tier: one case ran for > 45 min; not an oracle change)
+    if (ncycle > 1) prm.put("max_levels", 6);
     size_t levels = 0;
     auto build = [&](const Csr<double> &A) {
         size_t n = static_cast<size_t>(A.n);
